@@ -83,6 +83,7 @@ type Env struct {
 	LastState  map[string]*St // graph path -> state object last seen there
 	StateLineage map[*St]string
 	abortedLast map[string]bool // tag|path -> the last attempt asked for a re-run
+	ScriptOffset map[string]int // run tag -> offset into the branch scripts (concurrent callers decide differently)
 	inCrit     map[*St]string // mutual exclusion monitor
 	Problems   []Problem
 	Faults     map[string]int
@@ -98,7 +99,7 @@ func NewEnv(s *kernel.Sim) *Env {
 	return &Env{S: s, branchEval: map[string]int{}, execCount: map[string]int{}, doneCount: map[string]int{},
 		inCrit: map[*St]string{}, Faults: map[string]int{}, Probes: map[string]int{}, Callbacks: &CBLog{},
 		StatePath: map[*St]string{}, CritCount: map[*St]int{}, LastState: map[string]*St{}, StateLineage: map[*St]string{},
-		abortedLast: map[string]bool{}}
+		abortedLast: map[string]bool{}, ScriptOffset: map[string]int{}}
 }
 
 func (e *Env) Seq() int { e.seq++; return e.seq }
@@ -312,7 +313,7 @@ func (b *builder) body(ctx context.Context, p *Plan, n *Node, full string, in M,
 		e.Faults["interrupt_and_rerun"]++
 		return nil, compose.InterruptAndRerun
 	}
-	if n.FailAt >= 0 && n.FailAt == done {
+	if n.FailAt >= 0 && n.FailAt == done && (n.FailTag == "" || n.FailTag == tag) {
 		rec.Failed = true
 		rec.End = e.Seq()
 		switch n.FailKind {
@@ -551,6 +552,7 @@ func (b *builder) branch(p *Plan, path string, br *Branch, idx int) *compose.Gra
 		k := tagOf(ctx) + "|" + id
 		c := e.branchEval[k]
 		e.branchEval[k] = c + 1
+		c += e.ScriptOffset[tagOf(ctx)]
 		sel := map[string]bool{}
 		for _, t := range br.Script[c%len(br.Script)] {
 			sel[t] = true
